@@ -53,6 +53,17 @@ import (
 
 //@ func (*queue).put
 //@   requires wfQueue(q)
+//@   ghost var locked bool = false
+//@   at call? (*sync.Mutex).Lock#0 check[C04,C04@conc] !locked
+//@   at call? (*sync.Mutex).Lock#0 ghost[C04,C04@conc] locked := true
+//@   at call? (*sync.Mutex).Unlock#0 check[C04,C04@conc] locked
+//@   at call? (*sync.Mutex).Unlock#0 ghost[C04,C04@conc] locked := false
+//@   at call? (*sync.Mutex).Unlock#1 check[C04,C04@conc] locked
+//@   at call? (*sync.Mutex).Unlock#1 ghost[C04,C04@conc] locked := false
+//@   exit[C04,C04@conc] !locked      // the mutex is taken once and released on every path
+//@   at call? sync/atomic.LoadInt64#0 check[C04,C04@conc] locked      // every shared access of put lies inside the critical section
+//@   at call? sync/atomic.LoadInt64#1 check[C04,C04@conc] locked
+//@   at call? sync/atomic.AddInt64#0 check[C04,C04@conc] locked
 //@   at call? sync/atomic.AddInt64#0 check a0 == q.tail && qelem(q, *q.tail, 0) == e.seqID && qelem(q, *q.tail, 1) == e.offsetInShmBuf && qelem(q, *q.tail, 2) == e.status   // publication order: the slot is completely written when tail is advanced
 //@   assume   *q.tail < 4611686018427387904   // environment: the 64-bit logical index does not wrap (2^62 puts)
 //@   ensures  old(*q.tail - *q.head) >= q.cap ==> r0 == ErrQueueFull && *q.head == old(*q.head) && *q.tail == old(*q.tail)
@@ -820,6 +831,14 @@ func lemmaCreateThenMapQueue(data []byte, cap uint32) {
 
 //@ func (*streamPool).push
 //@   requires wfPool(p)
+//@   ghost var locked bool = false
+//@   at call? (*sync.Mutex).Lock#0 check[C15] !locked
+//@   at call? (*sync.Mutex).Lock#0 ghost[C15] locked := true
+//@   at call? (*sync.Mutex).Unlock#0 check[C15] locked
+//@   at call? (*sync.Mutex).Unlock#0 ghost[C15] locked := false
+//@   at call? (*sync.Mutex).Unlock#1 check[C15] locked
+//@   at call? (*sync.Mutex).Unlock#1 ghost[C15] locked := false
+//@   exit[C15] !locked      // the mutex is taken once and released on every path
 //@   assume   p.tail < 4611686018427387904   // environment: the 64-bit logical index does not wrap
 //@   ensures  old(p.tail - p.head) <  p.capacity ==> result == nil && p.tail == old(p.tail) + 1 && p.head == old(p.head) && poolElem(p, old(p.tail)) == s
 //@   ensures  old(p.tail - p.head) <  p.capacity ==> forall i in [old(p.head), old(p.tail)): using(modDistinct(i, old(p.tail), p.capacity)) ==> poolElem(p, i) == old(poolElem(p, i))
@@ -829,6 +848,14 @@ func lemmaCreateThenMapQueue(data []byte, cap uint32) {
 
 //@ func (*streamPool).pop
 //@   requires wfPool(p)
+//@   ghost var locked bool = false
+//@   at call? (*sync.Mutex).Lock#0 check[C15] !locked
+//@   at call? (*sync.Mutex).Lock#0 ghost[C15] locked := true
+//@   at call? (*sync.Mutex).Unlock#0 check[C15] locked
+//@   at call? (*sync.Mutex).Unlock#0 ghost[C15] locked := false
+//@   at call? (*sync.Mutex).Unlock#1 check[C15] locked
+//@   at call? (*sync.Mutex).Unlock#1 ghost[C15] locked := false
+//@   exit[C15] !locked      // the mutex is taken once and released on every path
 //@   assume   p.head < 4611686018427387904
 //@   ensures  old(p.tail) >  old(p.head) ==> result == old(poolElem(p, p.head)) && p.head == old(p.head) + 1 && p.tail == old(p.tail)
 //@   ensures  old(p.tail) <= old(p.head) ==> result == nil && p.head == old(p.head) && p.tail == old(p.tail)
